@@ -50,7 +50,7 @@ def _is_new_class(cname: str) -> bool:
 _REFERENCE_CLASSES = {"PolyhedralSyntaxOperator", "PolyhedralSyntaxEqlExpression", "PolyhedralSyntaxIneqExpression", "IncompatibleArgsError", "ContractFormatError", "PolyhedralSyntaxException", "PolyhedralSyntaxConvexException", "FileDataFormatException"}
 
 
-_NEVER_NONE = {"list", "dict", "set", "tuple", "frozenset", "len", "str", "int", "float", "bool", "sorted", "zip", "enumerate", "range", "type", "repr", "abs", "sum", "reversed", "iter", "map", "filter", "isinstance", "format", "round"}
+_NEVER_NONE = {"numpy.array", "numpy.asarray", "numpy.zeros", "numpy.ones", "numpy.copy", "numpy.concatenate", "numpy.vstack", "numpy.hstack", "numpy.delete", "numpy.empty", "numpy.abs", "numpy.dot", "numpy.transpose", "numpy.reshape", "numpy.where", "numpy.flatnonzero", "numpy.nonzero", "numpy.isclose", "numpy.any", "numpy.all", "numpy.max", "numpy.min", "numpy.sum", "numpy.append", "numpy.linalg.solve", "list", "dict", "set", "tuple", "frozenset", "len", "str", "int", "float", "bool", "sorted", "zip", "enumerate", "range", "type", "repr", "abs", "sum", "reversed", "iter", "map", "filter", "isinstance", "format", "round"}
 
 
 def const(v) -> V:
@@ -270,7 +270,13 @@ class _Run:
                 self.block(s.orelse, env)
             return
         if isinstance(s, ast.Return):
-            raise _Return(self.eval(s.value, env) if s.value is not None else const(None))
+            rv = self.eval(s.value, env) if s.value is not None else const(None)
+            if isinstance(rv, tuple) and rv and rv[0] in ("cmp", "boolop", "un"):
+                # a test returned as a value (`return status == INFEASIBLE`): its truth when the path's assumptions fix it
+                fv = self.fold(rv)
+                if is_const(fv) and isinstance(fv[1], bool):
+                    rv = fv
+            raise _Return(rv)
         if isinstance(s, ast.Raise):
             cls = exc_class_of(s.exc) or "?"
             if s.exc is None:
@@ -583,6 +589,13 @@ class _Run:
                 return const(res if op == "In" else not res)
             if op in ("Is", "IsNot") and is_const(r) and r[1] is None and (l[0] in ("list", "dict", "tuple", "set", "bin", "new", "listcomp", "dictcomp", "setcomp") or (l[0] == "call" and l[1] in _NEVER_NONE)):
                 return const(op == "IsNot")  # a display / a constructor / a builtin that never gives None
+            if op in ("Is", "IsNot") and is_const(r) and r[1] is None:
+                # a value that passed an isinstance test on this path (decided, or granted by the scenario) is not None
+                passed = any(val and isinstance(k, tuple) and k and k[0] == "call" and k[1] == "isinstance" and k[2] and k[2][0] == l for k, val in self.decided.items())
+                if not passed and self.sim.assume is not None and l[0] == "param":
+                    passed = self.sim.assume(("call", "isinstance", (l, ("ext", "object")), (), 0)) == const(True)
+                if passed:
+                    return const(op == "IsNot")
             return ("cmp", op, l, r)
         return v
 
@@ -847,6 +860,9 @@ class _Run:
         if self.sim.inline is not None:
             if f[0] == "func" and self.sim.inline(f[1]):
                 self.path.events.pop()
+                tfi = self.prog.funcs.get(f[1])
+                if tfi is not None and tfi.kind == "classmethod" and tfi.cls is not None:
+                    return self.inline_call(f[1], args, kws, e, ("class", tfi.cls.name))  # Cls.method(...): cls is the class
                 return self.inline_call(f[1], args, kws, e, None)
             if f[0] == "attr":
                 target = self._method_target(f[1], f[2])
